@@ -35,6 +35,10 @@ import (
 	staking "github.com/oasisprotocol/oasis-core/go/staking/api"
 )
 
+// kmSecondInBlock labels a request that repeats one issued earlier for the same block: it fails as a
+// duplicate unless the earlier one fails (it may have been invalidated on purpose after it was built).
+const kmSecondInBlock = "post:second-in-block"
+
 // kmMaxDriven is the number of CHURP instances whose handoffs the nodes take part in.
 const kmMaxDriven = 3
 
@@ -252,9 +256,11 @@ func (d *kmDriver) mkEphemeral(what string) *GenTx {
 	key := fmt.Sprintf("eph:%d", sec.Epoch)
 	if intent == "valid" {
 		// Only one secret per epoch; a further fault is applied only to an otherwise valid publication.
-		switch already := d.issued[key] || (d.snap.Ephemeral != nil && d.snap.Ephemeral.Secret.Epoch == sec.Epoch); {
-		case already:
+		switch {
+		case d.snap.Ephemeral != nil && d.snap.Ephemeral.Secret.Epoch == sec.Epoch:
 			intent = "km:duplicate"
+		case d.issued[key]:
+			intent = kmSecondInBlock
 		case what != "" && what != "km:duplicate":
 			intent = what
 		}
@@ -304,9 +310,11 @@ func (d *kmDriver) mkMaster(what string) *GenTx {
 	if intent == "valid" {
 		// Only one proposal per epoch and only when rotation is due; a further fault is applied
 		// only to an otherwise valid publication.
-		switch already := d.issued[key] || (d.snap.Master != nil && d.snap.Master.Secret.Epoch == sec.Epoch); {
-		case already:
+		switch {
+		case d.snap.Master != nil && d.snap.Master.Secret.Epoch == sec.Epoch:
 			intent = "km:duplicate"
+		case d.issued[key]:
+			intent = kmSecondInBlock
 		case !rotationOK:
 			intent = "km:rotation-not-allowed"
 		case what != "" && what != "km:duplicate" && what != "km:rotation-not-allowed":
@@ -592,7 +600,7 @@ func (d *kmDriver) mkChurpUpdate(what string) *GenTx {
 		// Two policy updates of one instance in a block: the second one's serial is stale.
 		key := fmt.Sprintf("churp-policy:%d", st.ID)
 		if d.issued[key] {
-			intent = "km:stale-serial"
+			intent = kmSecondInBlock
 		}
 		d.issued[key] = true
 	}
@@ -621,8 +629,10 @@ func (d *kmDriver) mkChurpApply(st *churp.Status, n *SimNode, what string) *GenT
 		intent = "km:handoffs-disabled"
 	case st.NextHandoff != d.epoch+1:
 		intent = "km:submissions-closed"
-	case applied || d.issued[key]:
+	case applied:
 		intent = "km:duplicate"
+	case d.issued[key]:
+		intent = kmSecondInBlock
 	}
 	app := churp.ApplicationRequest{Identity: st.Identity, Epoch: st.NextHandoff, Checksum: hash.NewFromBytes(d.randBytes(16))}
 	rak := kmRAK()
@@ -670,8 +680,10 @@ func (d *kmDriver) mkChurpConfirm(st *churp.Status, n *SimNode, what string) *Ge
 		intent = "km:confirmations-closed"
 	case !applied:
 		intent = "km:application-not-found"
-	case app.Reconstructed || d.issued[key]:
+	case app.Reconstructed:
 		intent = "km:duplicate"
+	case d.issued[key]:
+		intent = kmSecondInBlock
 	}
 	conf := churp.ConfirmationRequest{Identity: st.Identity, Epoch: st.NextHandoff, Checksum: churpChecksum(st.ID, st.NextHandoff)}
 	if st.NextChecksum != nil {
